@@ -55,7 +55,9 @@ class TranslateNode(Node, TranslatableTag):
     translations_var = "translations"
     message_count_var = "count"
     message_context_var = "context"
-    re_vars = re.compile(r"(?<!%)(?:%%)*%\((\w+)\)s")
+    # A placeholder name is any Liquid identifier, which can contain hyphens and
+    # end with a question mark.
+    re_vars = re.compile(r"(?<!%)(?:%%)*%\(([\w?-]+)\)s")
 
     def __init__(
         self,
@@ -274,6 +276,7 @@ class TranslateTag(Tag):
     plural_name = "plural"
 
     re_whitespace = re.compile(r"\s*\n\s*")
+    re_var_name = re.compile(r"[\w?-]+")
 
     # Override this to disable argument-less filters in translation expression
     # arguments.
@@ -359,7 +362,9 @@ class TranslateTag(Tag):
                         token=node.token,
                     )
 
-                if not isinstance(var, str):
+                # A quoted name with any other character could not be told
+                # apart from message text once it is a `%(name)s` placeholder.
+                if not isinstance(var, str) or not self.re_var_name.fullmatch(var):
                     raise TranslationSyntaxError(
                         f"expected a translation variable, found '{expr}'",
                         token=node.token,
